@@ -236,7 +236,7 @@ EXTRA = {
             "the option mapping obtained through the getter is never written; a _serialize override goes through super()._serialize() or returns the empty placeholder."),
     "C17": (" The matcher cache discipline (full text as key, filled on success only) is checked here too; every occurrence of a sub-pattern is visited "
             "(no table of compiled parse trees); every capture name given to a matcher in the interpreter is a value returned by the duplicate check "
-            "(_check_unique_and_get_capture), never one read off the parse tree."),
+            "(_check_unique_and_get_capture), never one read off the parse tree; no text assembled at run time is parsed as a str.format template in a compile entry point."),
     "C18": (" The parent's field is rewritten whenever the node has a parent; the held child sequence is never edited in place; the release of the old node in replace() "
             "does not depend on the replaced values; no node is looked up among nodes by equality; no class-attribute cache is inherited." + STATE),
     "C19": (" No blanket detach of claimed children on a failure path; positions restored after a rejection are the recorded ones (no equality search); "
